@@ -6,12 +6,13 @@ SPEC = dict(
     drivers=["qxdriver_c03"],
     harnesses=[dict(name="framing", asan=False, driver="qxdriver_c03")],
     exhaustive=True,
-    rule="corpus of 41 streams (6 header shapes with/without XML declaration, 18 stanza shapes: ASCII, 2-/3-/4-byte characters in "
+    rule="corpus of 43 streams (8 header shapes with/without XML declaration, incl. '>' in header attribute values and line breaks in the declaration; 18 stanza shapes: ASCII, 2-/3-/4-byte characters in "
          "text and attributes, the 5 entities and numeric references, '>' and '/>' inside attribute values, nested namespaces, "
          "white-space keep-alives between stanzas, several stanzas per read, with/without stream close) x partitions of the BYTE "
          "sequence: every 2-way split of every stream (exhaustive; S streams_with_all_2_splits), one byte at a time, seeded random "
          "k-way splits (25 per stream, k<=7 quick; 1000 per stream, k<=13 thorough), thorough: every 3-way split of the 5 shortest streams "
-         "and of the 4 streams with 2-/3-/4-byte characters; plus every 2-way split of two streams with unusual legal headers. Each chunk travels "
+         "and of the 4 streams with 2-/3-/4-byte characters; plus every 2-way split of the former defect witnesses, of two streams with unusual legal "
+         "headers and of a stream preceded by a byte order mark (which must be ignored at the very start and only there). Each chunk travels "
          "through a real loopback TCP connection into XmppSocket (one read per chunk, verified), and the events of that read "
          "(signal + canonical element + buffered/cached lengths) are compared line by line with the Lean model fed the same bytes; "
          "text-level splits incl. empty reads go through processData directly; 16 probe sequences exercise the two regular "
@@ -23,8 +24,9 @@ SPEC = dict(
         "Lean 4.33.0 kernel; axioms per theorem listed under coverage.theorems (subset of propext, Classical.choice, Quot.sound)",
         "hand-written model lean/Qx/Model/C03Framing.lean (processData, the two regexes, per-read UTF-8 decoding), tied to "
         "src/base/Stream.cpp:178-180,228-331 by the correspondence run",
-        "lean/Qx/Base/Utf8.lean as a model of QString::fromUtf8 (Qt 5.15): exercised here on every chunk of every split, "
-        "including all cuts inside multi-byte characters",
+        "lean/Qx/Base/Utf8.lean (ideal incremental decoder Dec) + 'U+FEFF dropped only as first character of the stream' as a model of "
+        "Qt 5.15 QTextDecoder on WELL-FORMED UTF-8: exercised on every read of every split, including all cuts inside multi-byte "
+        "characters and inside a leading BOM; on malformed UTF-8 QTextDecoder is known to differ (not chunk independent) - out of scope",
         "QDomDocument::setContent is a PARAMETER of the theorems; the only assumption about it is the hypothesis structure "
         "PrefixOracle, measured on the real QDomDocument on exactly the corpus inputs (not proved about Qt)",
         "loopback TCP delivering each flushed chunk as one read (checked per chunk: S transport_rechunked)",
@@ -33,16 +35,19 @@ SPEC = dict(
         "PrefixOracle P items: a buffer ending on an item boundary parses to exactly the items it holds, a buffer ending inside an "
         "item is rejected (hypothesis of every framing theorem; satisfiable: examples in Props/C03.lean; measured on Qt)",
         "keep-alive (null element) notifications depend on the split by design and are excluded from the compared events",
-        "valid stream = header first, no leading white space, closing tag (if any) at the very end, well-formed UTF-8",
+        "valid stream = (optional BOM,) header first, no leading white space, closing tag (if any) at the very end, well-formed UTF-8",
     ],
     level_text="Theorems for every parser satisfying PrefixOracle, every stream and every chunking: text-level split independence "
                "(framing_split_independent, framing_delivers_exactly); stateful UTF-8 decoding is chunk independent for all byte "
-               "lists; per-read decoding agrees iff-direction proved for chunks on character boundaries; byte-level property "
-               "proved in full for the stateful decoder (the prepared fix) and under the boundary hypothesis for today's code; "
-               "today's code refuted with an explicit witness (C03_defect_split_in_multibyte), reproduced on the real socket path.",
+               "lists; full byte-level property for the code as it is (framing_bytes_split_independent: every split, including "
+               "inside multi-byte characters and inside a leading BOM, delivers exactly the stream's events). The four defects found "
+               "earlier (split inside a character, U+FEFF at read start, '>' in a header attribute, line break in the XML declaration) "
+               "are fixed in the repo (49994ec, 381fe43); their witnesses stay first in the corpus.",
     level_note="Proved about the hand-written model with the DOM parser abstracted by a measured hypothesis; model-to-code tie is "
-               "differential (exhaustive 2-splits of a 41-stream corpus, sampled beyond). Known finding: a read boundary inside a "
-               "multi-byte character corrupts the text (fix diff provided).",
+               "differential (exhaustive 2-splits of a 43-stream corpus, sampled beyond). The decoder is modelled by the ideal "
+               "incremental UTF-8 decoder: Qt 5's QTextDecoder coincides with it on well-formed UTF-8 (what the property quantifies "
+               "over: 'any valid XMPP stream') but is not chunk independent on MALFORMED input; a BOM is dropped only as the very first "
+               "character of the stream (standard XML behaviour), a U+FEFF anywhere later survives every split (measured).",
     design_ref="5.3",
     technique="Lean 4 induction over chunk lists + UTF-8 decoder lemmas + model/implementation correspondence over a real socket",
 )
